@@ -8,7 +8,7 @@ Property theorems about `Model/Par.lean` (transcription of `names.rs`, the glyph
 Statement of the property, clause by clause:
 
 * "sharing interned names between threads never changes, loses or mixes up a name"
-  — `intern_returns_equal_name`, `interning_never_mixes`, `par_load_items`
+  — `intern_returns_equal_name`, `interning_never_mixes`, `par_set_wellformed`, `par_load_items`
 * "for every thread count and every interleaving, loading yields the same font as the sequential build"
   — `par_load_eq_seq` (one layer as a map, any initial name list), `par_load_eq_seq_sorted` (the same as
   the sorted list `BTreeMap` iteration shows, for any strict total order on names), `par_load_fails_iff_seq_fails`,
@@ -51,6 +51,14 @@ theorem write_keeps_set_wellformed (b : Bool) (s : NameSet) (req : NameObj) (h :
     SetOK (writeStep b s req).1 ∧ (∀ e ∈ s, e ∈ (writeStep b s req).1) ∧
       (∀ e ∈ (writeStep b s req).1, e ∈ s ∨ e = req) :=
   ⟨insertIfAbsent_ok h req, fun _ he => insertIfAbsent_sub he, fun _ he => insertIfAbsent_mem he⟩
+
+/-- **the shared name list under ANY schedule** (complete or not, any pool): it never holds two names with
+    the same text, and no name that was in it is ever lost or replaced -/
+theorem par_set_wellformed (b : Bool) (sched : List Nat) (st : St) (h : SetOK st.sh.set) :
+    SetOK (run b sched st).sh.set ∧ ∀ e ∈ st.sh.set, e ∈ (run b sched st).sh.set :=
+  ⟨run_set_invariant SetOK (fun _ req hs => insertIfAbsent_ok hs req) b sched st h,
+   run_set_invariant (fun s => ∀ e ∈ st.sh.set, e ∈ s) (fun _ _ hs e he => insertIfAbsent_sub (hs e he))
+     b sched st (fun _ he => he)⟩
 
 /-! ## loading -/
 
@@ -234,6 +242,12 @@ example : ((run true race (St.init [] 0 [[fA], [fa]])).sh.out.map
     (fun | .glyph g => g.comps.map NameObj.tag | _ => [])) = [[2], [2]] := by decide
 
 example : (([⟨['a'], ['f']⟩, ⟨['b'], ['g']⟩] : List Entry).map Entry.path).Nodup := by decide
+
+/-- the hypothesis of `par_set_wellformed` holds at the start of a font load (empty name list), and the set
+    after the racing schedule holds `b` once although two workers inserted it -/
+example : SetOK ([] : NameSet) := List.Pairwise.nil
+example : ((run false race (St.init [] 0 [[fA], [fa]])).sh.set.map NameObj.str) =
+    [['b'], ['x'], ['a'], ['A']] := by decide
 
 /-- the sorted collector on the racing schedule: `A` before `a` -/
 example : sortedLayerOf lexLt
